@@ -1,7 +1,7 @@
 """C04 - solvePDE solves exactly the system its term list and BCs define, in place.
 
 Programs (term lists), not inputs, are the quantifier: all term lists up to length 3
-(thorough: 4) over an alphabet of 13 term kinds (matrix / vector / (matrix, vector) pairs,
+(thorough: 4) over an alphabet of 16 term kinds (matrix / vector / (matrix, vector) pairs,
 negated, scaled, plain tuple, SignedTuple) in every order, on 9 classes x 2 shapes x 3 BC
 set-ups.  Oracle: independently accumulated dense system; (i) returns its argument,
 (ii) residual on interior and boundary rows, (iii) == solveMatrixPDE of the hand-assembled
@@ -23,12 +23,12 @@ from .c15 import fingerprint
 
 ID = "C04"
 LEVEL = "model_checking"
-RULE = ("programs = all ordered term lists of length <= L over the 13-kind alphabet (plus one mandatory well-conditioned "
+RULE = ("programs = all ordered term lists of length <= L over the 16-kind alphabet (plus one mandatory well-conditioned "
         "base term) x class x shape x BC set-up; every program is executed with a spy solver; one program = one distinct "
         "non-trivial case; ghost-row and superposition parts run on the full basis")
 ASSUMPTIONS = ["programs whose assembled matrix has cond*eps > 1e-6 (e.g. negative diffusion cancelling the base term) are "
                "counted as preconditions_failed", "tolerance 64*eps*cond(M)*max|phi| for solution comparisons"]
-ALPHABET = ["Md", "nMd", "2Mc", "Mu", "Ls2", "v", "nv", "tvd", "pair", "tuple", "ST", "nST", "pST"]
+ALPHABET = ["Md", "nMd", "2Mc", "Mu", "Ls2", "v", "nv", "tvd", "pair", "tuple", "ST", "nST", "pST", "Mu0", "MuL", "MdL"]
 SHAPES = {1: [(3,), (1,)], 2: [(2, 3), (1, 2)], 3: [(2, 1, 2), (2, 2, 2)]}
 
 
@@ -116,6 +116,15 @@ class Env:
             return ST((pf.convectionUpwindTerm(self.u), pf.constantSourceTerm(self.gamma)))
         if kind == "nST":
             return -ST((pf.diffusionTerm(self.D), pf.constantSourceTerm(self.gamma)))
+        if kind in ("Mu0", "MuL", "MdL"):
+            # coefficient fields that vanish on all but one axis: matrices with other sparsity patterns (a velocity
+            # along the first axis only / along the last axis only and negative; diffusion along the last axis only)
+            d = self.g.d
+            keep = 0 if kind == "Mu0" else d - 1
+            src = self.D if kind == "MdL" else self.u
+            arrs = [np.abs(a) * (-1.0 if kind == "MuL" else 1.0) if ax == keep else np.zeros_like(a) for ax, a in enumerate(self.g.face_arrays(src))]
+            f = U.face_from_arrays(self.g.mesh, arrs)
+            return -pf.diffusionTerm(f) if kind == "MdL" else pf.convectionUpwindTerm(f)
         if kind == "pST":
             return +ST((pf.linearSourceTerm(self.beta2), -pf.constantSourceTerm(self.gamma)))
         raise KeyError(kind)
